@@ -209,13 +209,16 @@ pub fn run(ctx: &Ctx) -> Coverage {
         absorb(ctx, &spec, out);
     });
     // parametric grammars
-    let pg = parametric_grammars();
-    let pvocab = c05_vocab(b"abcdex", &["ab", "ba", "aa", "abc", "cd", "bb", "ca"]);
+    let n_hand = parametric_grammars().len();
+    let mut pg = parametric_grammars();
+    pg.extend(generated_parametric());
+    ctx.count("generated_parametric_grammars", (pg.len() - n_hand) as u64);
+    let pvocab = c05_vocab(b"abcdefpq!x", &["ab", "ba", "aa", "abc", "cd", "bb", "ca", "bp", "cq", "pb", "pc", "ae", "af", "pq", "aep", "dq", "b!", "aa!"]);
     pg.par_iter().for_each(|p| {
         let f = Factory::new(&pvocab, &Slices::None).unwrap();
         let spec = GrammarSpec::Lark(p.lark.clone());
         let out = product_cfg(p.name, &spec, &p.bnf, &f, &pvocab, ctx.tier.pick(10, 16), max_states * 4);
-        if out.refused.is_some() {
+        if out.refused.is_some() && !p.name.starts_with("genp-") {
             ctx.machinery_error(format!("parametric grammar {} refused: {:?}\n{}", p.name, out.refused, p.lark));
         }
         ctx.count("parametric_grammars", 1);
@@ -225,7 +228,7 @@ pub fn run(ctx: &Ctx) -> Coverage {
         ctx.machinery_error("vacuous run: no closed product or no multi-byte token allowed");
     }
     Coverage::StateGraph {
-        rule: format!("every fully productive Lark grammar with <= {size} AST nodes over terminals \"a\", \"bc\", /[de]/ (one or two rules, recursion allowed) plus 7 hand-written parametric grammars; BFS over the product (real engine state, reference Earley chart) to {depth} bytes with pair-key dedup over a vocabulary of single bytes and multi-byte tokens; accepting flag and every token compared in every product state; products_closed counts complete (all lengths) results"),
+        rule: format!("every fully productive Lark grammar with <= {size} AST nodes over terminals \"a\", \"bc\", /[de]/ (one or two rules, recursion allowed) plus 7 hand-written parametric grammars and a generated parametric family (one callee reached with two different parameter values from the same Earley set — in two alternatives, in sequence, behind an ambiguous prefix — with every 2- and 3-subset of a menu of guarded callee alternatives, and left-recursive counting); BFS over the product (real engine state, reference Earley chart) to {depth} bytes with pair-key dedup over a vocabulary of single bytes and multi-byte tokens; accepting flag and every token compared in every product state; products_closed counts complete (all lengths) results"),
     }
 }
 
